@@ -15,8 +15,7 @@ PROP = dict(
          "prefix-qualified functions with positional, named (`label = value`), mixed and reordered arguments and omitted defaults, "
          "extension methods with labelled parameters called on variables and on fresh values, struct and variant constructors "
          "with named arguments (also `.Variant(name = …)`), every argument value an arbitrary expression over the shadowed scope; "
-         "
-         "prefix-qualified functions, struct construction and field access, enum variants written `.V` and `E.V`, array and "
+         "struct construction and field access, enum variants written `.V` and `E.V`, array and "
          "tuple literals, indexing; every import form; variable names drawn from a pool of nine, one of which is also an "
          "imported function's name, so shadowing is the rule; non-ASCII string literals and comments, task blocks; the D12 / D45 / D60 probe programs are hard regression inputs). Per file: "
          "two model cases (identifier search, innermost-node search) covering EVERY byte offset 0..=len+2, one case claiming "
